@@ -181,8 +181,8 @@ theorem readVout_total (sha : Bytes → Bytes) (idx : Nat) (b : Bytes) :
   rw [Props.C06.readVout_eq_parse]
   cases Tx.read b <;> simp
 
--- GOAL (not proved): cost bounds for the descriptor / miniscript / mnemonic / share / address text parsers (their
---   Lean models take trees or index lists, not text) and for recursion depth; these are covered by the monitor only.
+-- The text parsers (descriptor / miniscript / taptree: termination, steps, recursion depth; Base58, bech32, mnemonics,
+-- shares), the Liquid parsers and the key parsers are in Props/C17X.lean, with what remains unproved stated there.
 
 /-! ### non-vacuity -/
 example : readManySteps Compact.read 1000000 [1, 2, 3] = 4 := by decide
